@@ -218,7 +218,7 @@ def observe(case, scratch):
     if tree["single"]:
         materialise(base, [[tree["name"], tree["files"][0][1], tree["files"][0][2]]])
     else:
-        materialise(root, tree["files"], tree["dirs"])
+        materialise(root, tree["files"], tree["dirs"], tree.get("links", ()))
     recheck = drive.mod("recheck")
     reach = env.Reach()
     reach.start({
